@@ -1,6 +1,7 @@
 import SluProofs.Lemmas.Rounding
 import Mathlib.Algebra.BigOperators.Intervals
 import Mathlib.Algebra.Order.BigOperators.Ring.Finset
+import Mathlib.Data.Finset.Card
 /-
 Componentwise backward error of LU factorization and of the triangular solves, for EVERY
 evaluation order (Higham, Accuracy and Stability of Numerical Algorithms, 2nd ed., Thm 8.5,
@@ -269,5 +270,90 @@ theorem lu_solve_trans_backward_error {u : F} (hu0 : 0 ≤ u) {n qL qU K : Nat} 
   intro i hi j hj
   have := lu_backward_error hu0 hLU (K := n - 1 + qL) (by omega) h3 j hj i hi
   simpa only [mul_comm] using this
+
+/-! ### column permutation of the unknowns, exact arithmetic as the instance `u = 0` -/
+
+/-- reindexing a full sum by a permutation of `range n` -/
+theorem sum_range_perm (f : Nat → F) {n : Nat} {pc : Nat → Nat} (hpc : ∀ j < n, pc j < n)
+    (hinj : ∀ j < n, ∀ j' < n, pc j = pc j' → j = j') :
+    ∑ c ∈ range n, f c = ∑ j ∈ range n, f (pc j) := by
+  have hinj' : Set.InjOn pc (range n : Set Nat) := by
+    intro a ha b hb hab
+    exact hinj a (by simpa using ha) b (by simpa using hb) hab
+  have himg : (range n).image pc = range n := by
+    apply Finset.eq_of_subset_of_card_le
+    · intro c hc
+      obtain ⟨j, hj, rfl⟩ := Finset.mem_image.mp hc
+      exact Finset.mem_range.mpr (hpc j (Finset.mem_range.mp hj))
+    · rw [Finset.card_image_of_injOn hinj']
+  conv_lhs => rw [← himg]
+  exact Finset.sum_image hinj'
+
+/-- **Thm 9.4 with SuperLU's permutations**: `Pr A Pc = L̂Û` computed (`(Pr A Pc)(i,j) = A (pr i) (pc j)`),
+`L̂ ŷ = Pr b`, `Û ẑ = ŷ`, `x̂ (pc j) = ẑ j` (permutations are exact).  Row `pr i` of the residual of the
+ORIGINAL system is bounded by row `i` of `|L̂||Û|` against `Pcᵀ|x̂|`. -/
+theorem lu_solve_backward_error_perm {u : F} (hu0 : 0 ≤ u) {n qL qU K : Nat} {A L U : Nat → Nat → F}
+    {b y x : Nat → F} {pr pc : Nat → Nat} (hpc : ∀ j < n, pc j < n)
+    (hinj : ∀ j < n, ∀ j' < n, pc j = pc j' → j = j')
+    (hLU : LUComputed u n n qL (fun i j => A (pr i) (pc j)) L U)
+    (hy : LowerSolved u n 0 L (fun i => b (pr i)) y) (hx : UpperSolved u n qU U y (fun j => x (pc j)))
+    (hK : 3 * n + qL + qU ≤ K + 3) (hKu : (K : F) * u < 1) (i : Nat) (hi : i < n) :
+    |b (pr i) - ∑ c ∈ range n, A (pr i) c * x c| ≤
+      gamma u K * ∑ j ∈ range n, (∑ t ∈ range n, |L i t| * |U t j|) * |x (pc j)| := by
+  rw [sum_range_perm (fun c => A (pr i) c * x c) hpc hinj]
+  exact lu_solve_backward_error hu0 hLU hy hx hK hKu i hi
+
+theorem leftEval_exact (c : F) (l : List (F × F)) : leftEval (FlModel.exact F) c l = c - dotSum l := by
+  induction l with
+  | nil => simp [leftEval, dotSum]
+  | cons p l ih =>
+    have : dotSum (p :: l) = p.1 * p.2 + dotSum l := by simp [dotSum]
+    rw [this]
+    show leftEval (FlModel.exact F) c l - p.1 * p.2 = _
+    rw [ih]; ring
+
+/-- every exact factorization `A = L U` (unit lower `L`, upper `U` with nonzero diagonal) satisfies
+the hypotheses with `u = 0`: the rounding model contains exact arithmetic -/
+theorem LUComputed.of_exact {m n : Nat} {A L U : Nat → Nat → F}
+    (hLd : ∀ i < n, L i i = 1) (hLu : ∀ i t, i < t → L i t = 0) (hUl : ∀ t j, j < t → U t j = 0)
+    (hUd : ∀ k < n, U k k ≠ 0) (hA : ∀ i j, j < n → A i j = ∑ t ∈ range n, L i t * U t j) :
+    LUComputed (0 : F) m n 1 A L U where
+  L_diag := hLd
+  L_upper := hLu
+  U_lower := hUl
+  U_entry := by
+    intro k j hkj hj
+    have h := dot_left (FlModel.exact F) (A k j) ((List.range k).map fun t => (L k t, U t j))
+    have e : leftEval (FlModel.exact F) (A k j) ((List.range k).map fun t => (L k t, U t j)) = U k j := by
+      rw [leftEval_exact, dotSum_range, hA k j hj,
+        sum_range_trunc (fun t => L k t * U t j) (k := k + 1) (by omega)
+          (fun t h1 _ => by simp [hLu k t (by omega)]),
+        Finset.sum_range_succ, hLd k (by omega)]
+      ring
+    rw [e] at h; exact h
+  L_entry := by
+    intro i k hki _ hk
+    refine ⟨.div, le_rfl, ?_⟩
+    have h := dot_left_div (FlModel.exact F) (A i k) ((List.range k).map fun t => (L i t, U t k))
+      (U k k) (hUd k hk)
+    have e : (FlModel.exact F).div
+        (leftEval (FlModel.exact F) (A i k) ((List.range k).map fun t => (L i t, U t k))) (U k k) = L i k := by
+      rw [leftEval_exact, dotSum_range, hA i k hk,
+        sum_range_trunc (fun t => L i t * U t k) (k := k + 1) (by omega)
+          (fun t h1 _ => by simp [hUl t k (by omega)]),
+        Finset.sum_range_succ]
+      have := hUd k hk
+      simp only [FlModel.exact]
+      field_simp
+      ring
+    rw [e] at h; exact h
+
+/-- conversely, with `u = 0` the bound collapses to the exact identity (`luFactor_identity` of C02) -/
+theorem LUComputed.exact_identity {m n q : Nat} {A L U : Nat → Nat → F}
+    (h : LUComputed (0 : F) m n q A L U) (i : Nat) (hi : i < m) (j : Nat) (hj : j < n) :
+    A i j = ∑ t ∈ range n, L i t * U t j := by
+  have := lu_backward_error (le_refl (0 : F)) h (K := n + q) (by omega) (by simp) i hi j hj
+  rw [gamma_u_zero, zero_mul] at this
+  exact sub_eq_zero.mp (abs_nonpos_iff.mp this)
 
 end Slu.Rounding
